@@ -162,7 +162,9 @@ func csessTier(r *vh.Rng, out *vh.Out, tier string) map[string]interface{} {
 		ws, cls := g.random()
 		// UNPREPARED answers to an unprepared statement are legal for the script too (the driver runs the request again)
 		c := consumers[r.Intn(4)]
-		jobs = append(jobs, job{mk(ws.ver, c, ws.prefetch, ws.pageSize, ws.script), "csess/" + c + "/" + strings.SplitN(cls, "/", 4)[3]})
+		op := mk(ws.ver, c, ws.prefetch, ws.pageSize, ws.script)
+		op = strings.Replace(op, fmt.Sprintf("csess v%d ", ws.ver), "csess "+ws.vtok()+" ", 1) // delay / compression of the walk scenario
+		jobs = append(jobs, job{op, "csess/" + c + "/" + strings.SplitN(cls, "/", 4)[3]})
 	}
 	res := make([]string, len(jobs))
 	var wg sync.WaitGroup
